@@ -1086,6 +1086,7 @@ def replay(ctx, rp):
     print('impl   :', ' '.join('.'.join(e) for e in obs['log']))
     print('errors :', obs['errors'], ' modules:', obs['modules'])
     print('model  :', ' '.join('.'.join(e) for e in canon_log(a[0].get('log', []))), a[0].get('errors'))
+    print('written:', obs['written'], ' model:', a[0].get('written'))
     print('judge  :', a[1])
     print('multievent trace followed by the model:', a[2].get('stuck') is None, a[2])
     clause = (rp.get('detail') or {}).get('clause')
